@@ -304,6 +304,11 @@ func (wr WriteRequest) fieldUpdater(writableFields *fieldmaskpb.FieldMask) *mask
 }
 
 func (wr WriteRequest) changeFn(writer *masks.FieldUpdater, value proto.Message) ChangeFn {
+	if value != nil && !value.ProtoReflect().IsValid() {
+		// a typed nil message (an update request that leaves its resource out) reads as the empty message:
+		// interceptors, which modify what is being written in place, are handed one they can write to
+		value = value.ProtoReflect().New().Interface()
+	}
 	return func(old, dst proto.Message) (proto.Message, error) {
 		if wr.expectedValue != nil {
 			if !proto.Equal(old, wr.expectedValue) {
